@@ -29,7 +29,11 @@ use async_trait::async_trait;
 use parking_lot::RwLock;
 use rhai::Dynamic;
 
-use std::{collections::HashMap, sync::Arc};
+use std::{
+    collections::{hash_map::DefaultHasher, HashMap},
+    hash::{Hash, Hasher},
+    sync::Arc,
+};
 
 type EventCallback = fn(&mut CachedEnforcer, EventData);
 
@@ -249,7 +253,14 @@ impl CoreApi for CachedEnforcer {
         ctx: EnforceContext,
         rvals: ARGS,
     ) -> Result<bool> {
-        let cache_key = rvals.cache_key();
+        // the decision depends on the context's sections as well as on the
+        // request values: both go into the key
+        let cache_key = {
+            let mut hasher = DefaultHasher::new();
+            ctx.get_cache_key().hash(&mut hasher);
+            rvals.cache_key().hash(&mut hasher);
+            hasher.finish()
+        };
         let rvals = rvals.try_into_vec()?;
         #[allow(unused_variables)]
         let (authorized, cached, indices) =
